@@ -83,13 +83,34 @@ namespace ValueFlow
         // If the sign is the same there is no truncation
         if (vt1->sign == vt2->sign)
             return value;
-        const size_t n1 = vt1->getSizeOf(settings, ValueType::Accuracy::ExactOrZero, ValueType::SizeOf::Pointer);
-        const size_t n2 = vt2->getSizeOf(settings, ValueType::Accuracy::ExactOrZero, ValueType::SizeOf::Pointer);
+        // The operands of a shift are promoted separately, there is no common type
+        if (Token::Match(parent, "<<|>>|<<=|>>="))
+            return value;
+        size_t n1 = vt1->getSizeOf(settings, ValueType::Accuracy::ExactOrZero, ValueType::SizeOf::Pointer);
+        size_t n2 = vt2->getSizeOf(settings, ValueType::Accuracy::ExactOrZero, ValueType::SizeOf::Pointer);
+        if (n1 == 0 || n2 == 0)
+            return value;
+        ValueType::Sign sign1 = vt1->sign;
+        ValueType::Sign sign2 = vt2->sign;
+        if (!parent->isAssignmentOp()) {
+            // Integer promotions: an operand that is narrower than int is converted to int
+            if (n1 < settings.platform.sizeof_int) {
+                n1 = settings.platform.sizeof_int;
+                sign1 = ValueType::Sign::SIGNED;
+            }
+            if (n2 < settings.platform.sizeof_int) {
+                n2 = settings.platform.sizeof_int;
+                sign2 = ValueType::Sign::SIGNED;
+            }
+            if (sign1 == sign2)
+                return value;
+        }
+        // Usual arithmetic conversions: the unsigned type wins unless the signed type is wider
         ValueType::Sign sign = ValueType::Sign::UNSIGNED;
         if (n1 < n2)
-            sign = vt2->sign;
-        else // (n1 >= n2)
-            sign = vt1->sign;
+            sign = sign2;
+        else if (n1 > n2 || parent->isAssignmentOp())
+            sign = sign1;
         Value v = castValue(value, sign, std::max(n1, n2) * 8);
         v.wideintvalue = value.intvalue;
         return v;
